@@ -33,11 +33,15 @@ Pool == <<
   [id |-> "xfhost",    fs |-> <<F("x-forwarded-host", "front.example")>>],
   [id |-> "xfurl",     fs |-> <<F("x-forwarded-url", "https://front.example/x")>>],
   [id |-> "ua",        fs |-> <<F("user-agent", "curl/8")>>],
-  [id |-> "aebr",      fs |-> <<F("accept-encoding", "br")>>]
+  [id |-> "aebr",      fs |-> <<F("accept-encoding", "br")>>],
+  \* the upgrade token inside a list (what Firefox sends) and in a second Connection line, in lower case
+  [id |-> "upgradeReqList",   fs |-> <<F("connection", "keep-alive, Upgrade"), F("upgrade", "websocket")>>],
+  [id |-> "upgradeReq2lines", fs |-> <<F("connection", "keep-alive"), F("connection", "upgrade"), F("upgrade", "websocket")>>]
 >>
 Items == 1..Len(Pool)
 \* items that cannot be combined (they use the same field in conflicting ways)
-Conflict(S) == \/ {13, 12} \subseteq S \/ {13, 6} \subseteq S
+UpgradeItems == {13, 23, 24}
+Conflict(S) == \/ (S \cap UpgradeItems # {} /\ S \cap {12, 6} # {}) \/ Cardinality(S \cap UpgradeItems) > 1
                \/ Cardinality(S \cap {14, 15}) > 1 \/ Cardinality(S \cap {16, 17}) > 1
 Selections == {S \in SUBSET Items : Cardinality(S) <= MaxItems /\ ~Conflict(S)}
 
@@ -49,7 +53,8 @@ HopByHop == {"connection", "keep-alive", "proxy-authenticate", "proxy-authorizat
              "te", "trailer", "transfer-encoding", "upgrade"}
 \* names nominated by Connection fields (the pool only uses these two shapes)
 Nominated(h) == UNION { IF h[i].n = "connection" /\ h[i].v = "x-hop, x-hop2" THEN {"x-hop", "x-hop2"} ELSE {} : i \in 1..Len(h) }
-IsUpgradeReq(h) == \E i \in 1..Len(h) : h[i].n = "connection" /\ h[i].v = "Upgrade"
+\* Connection values of the pool whose token list contains "upgrade" (tokens are case-insensitive)
+IsUpgradeReq(h) == \E i \in 1..Len(h) : h[i].n = "connection" /\ h[i].v \in {"Upgrade", "keep-alive, Upgrade", "upgrade"}
 
 \* the end-to-end fields the next hop must see, in order
 EndToEnd(h) == SelectSeq(h, LAMBDA f : f.n \notin HopByHop /\ f.n \notin Nominated(h))
